@@ -149,6 +149,34 @@ def run(ctx):
             for depth in (8, 64, 235, 900):
                 corpus.setdefault((struct.pack(">H", tid) + int_bytes(B, n)) * depth, "nested-announced-length")
                 corpus.setdefault((struct.pack(">H", B.seq_t) + int_bytes(B, 2) + struct.pack(">H", B.null_t) + struct.pack(">H", tid) + int_bytes(B, n)) * depth, "nested-announced-length")
+    # the one message a server decodes from unauthenticated peers is a fixed-size record (key, version, padding): chains of client hellos whose "version" is a
+    # sequence holding a filler and the next hello, each hello starting a chosen distance after the previous one - record-aligned and misaligned, so that any
+    # arithmetic on "what is left of the record" (negative padding, seeks) is exercised with every sign
+    try:
+        P, PH = C.Packet, C.PacketHeader
+        record = 2 + (P.MAX_PAYLOAD_SIZE - 2 - PH.SIZE - 2)
+        der = hello.client_pubkey.getBytes()
+        hid = struct.pack(">H", C.HandshakeClientHelloMessage.type_id)
+
+        def enc_bytes(b):
+            return struct.pack(">H", B.bytes_t) + int_bytes(B, len(b)) + b
+        for dist in (record, record - 1, record + 1, record - 6, record // 2, 600):
+            for levels in (2, 6, 12, 18):
+                nitems = levels + 3
+                out = []
+                for i in range(levels):
+                    head = hid + enc_bytes(der) + struct.pack(">H", B.seq_t) + int_bytes(B, nitems)
+                    fill = dist - len(head) - 6
+                    if fill < 0:
+                        break
+                    chunk = head + enc_bytes(b"\xAA" * fill)
+                    out.append(chunk + b"\xAA" * max(0, dist - len(chunk)))
+                last = hid + enc_bytes(der) + int_bytes(B, 1)
+                out.append(last + b"\x55" * max(0, record - len(last)))
+                out.append(struct.pack(">H", B.null_t) * (nitems + 2))
+                corpus.setdefault(b"".join(out), "hello-chains")
+    except Exception as e:
+        raise Machinery("cannot build the client-hello chains: %s" % e)
     for cls in sorted(registered, key=lambda c: c.type_id):
         nf = len(getattr(cls, "_fields", ()) or ())
         for n in (0, 1, nf, nf + 1, 255, 2 ** 31 - 1, 2 ** 62, -1):
